@@ -319,4 +319,244 @@ theorem loop_someT : ∀ (args : List Val) (h : Heap) (r e : Nat) (l log : List 
       rw [List.map_append, e1, e2, e3]
       simp [argsToks, List.append_assoc]
 
+theorem appendLoopF_root_some : ∀ (args : List Val) (h : Heap) (r e : Nat) (log : List Nat) (T : Toks)
+    (f c : Nat), (appendLoopF h (some r) (some e) log T f c args).2.1 = some r := by
+  intro args
+  induction args with
+  | nil => intro h r e log T f c; rfl
+  | cons a as ih =>
+    intro h r e log T f c
+    rcases hA : argNode h a with ⟨h1, _ | n, w⟩
+    · simp only [appendLoopF, hA]; exact ih _ _ _ _ _ _ _
+    · simp only [appendLoopF, hA]; exact ih _ _ _ _ _ _ _
+
+/-- one stack per allocated cell -/
+theorem argNode_sizeT (h : Heap) (T : Toks) (f c : Nat) (a : Val) (h1 : Heap) (n : Nat) (w : List Nat)
+    (hb : argNode h a = (h1, some n, w)) : h1.size = h.size + (argToks h T f c a).1.length := by
+  cases a with
+  | ref id =>
+    by_cases hem : isEmpty h id = true
+    · simp [argNode, hem] at hb
+    · have hem' : isEmpty h id = false := by simpa using hem
+      simp only [argNode, hem', copyChain] at hb
+      have : h1 = h ++ (freshBlock h.size ((chain h (fuelOf h) id).map (fun i => (h[i]?).getD default))).toArray := by
+        have := congrArg Prod.fst hb; simpa using this.symm
+      rw [this]
+      simp [freshBlock_length, argToks, hem']
+  | nilIface => simp [argNode, isNil] at hb
+  | typedNil => simp [argNode] at hb
+  | foreignNil => simp [argNode, isNil] at hb
+  | plain u m =>
+    simp only [argNode, isNil] at hb
+    have : h1 = h.push (wrapperNode (.plain u m)) := by have := congrArg Prod.fst hb; simpa using this.symm
+    rw [this]; simp [argToks, isNil]
+  | fwrap u m inner =>
+    simp only [argNode, isNil] at hb
+    have : h1 = h.push (wrapperNode (.fwrap u m inner)) := by have := congrArg Prod.fst hb; simpa using this.symm
+    rw [this]; simp [argToks, isNil]
+
+theorem argsToks_frame (h h' : Heap) (T T' : Toks) (f : Nat) (hwf : WF h) (hwf' : WF h') (hsz : h.size ≤ h'.size)
+    (hT : T.size = h.size) (hTT : ∀ i, i < T.size → tokOf T' i = tokOf T i) :
+    ∀ (as : List Val), (∀ id, Val.ref id ∈ as → id < h.size ∧ ∀ i ∈ chain h (fuelOf h) id, h'[i]? = h[i]?) →
+      ∀ c, argsToks h' T' f c as = argsToks h T f c as := by
+  intro as
+  induction as with
+  | nil => intro _ _; rfl
+  | cons b bs ih =>
+    intro hag c
+    have hb1 : argToks h' T' f c b = argToks h T f c b := by
+      apply argToks_frame h h' T T' f c b hwf hwf' hsz hT hTT
+      intro id hid
+      subst hid
+      exact hag id (by simp)
+    simp only [argsToks, hb1]
+    rw [ih (fun id hid => hag id (by simp [hid]))]
+
+/-- the loop started without a root: the result chain carries exactly the stacks of the arguments -/
+theorem loop_noneT : ∀ (args : List Val) (h : Heap) (log : List Nat) (T : Toks) (f c : Nat), WF h → T.size = h.size →
+    (∀ id, Val.ref id ∈ args → id < h.size) →
+    match (appendLoopF h none none log T f c args).2.1 with
+    | none => argsToks h T f c args = []
+    | some r => chainToks (appendLoopF h none none log T f c args).1 (appendLoopF h none none log T f c args).2.2.2.1 r =
+        argsToks h T f c args := by
+  intro args
+  induction args with
+  | nil => intro h log T f c _ _ _; rfl
+  | cons a as ih =>
+    intro h log T f c hwf hT hargs
+    have hargs' : ∀ id, Val.ref id ∈ as → id < h.size := fun id hid => hargs id (by simp [hid])
+    rcases argNode_specT h T f c a hwf (fun id ha => hargs id (by simp [ha])) with ⟨hsk, htk⟩ | ⟨h1, w, e', hb, B⟩
+    · have hun : appendLoopF h none none log T f c (a :: as) =
+          appendLoopF h none none log (T ++ (argToks h T f c a).1.toArray) f (argToks h T f c a).2 as := by
+        simp only [appendLoopF, hsk]
+      rw [hun]
+      have hT' : T ++ (argToks h T f c a).1.toArray = T := by rw [htk]; simp
+      rw [hT']
+      have := ih h log T f (argToks h T f c a).2 hwf hT hargs'
+      simpa [argsToks, htk] using this
+    · have hgrow := B.grow
+      have hn : h.size ≤ h.size ∧ h.size < h1.size := B.fresh h.size B.chain.head_mem
+      have hcur : tailOf h1 (fuelOf h1) h.size = e' := ((B.chain.bounds B.wf hn.2).2.2.2).symm
+      have hun : appendLoopF h none none log T f c (a :: as) =
+          appendLoopF h1 (some h.size) (some e') (log ++ w) (T ++ (argToks h T f c a).1.toArray) f (argToks h T f c a).2 as := by
+        simp only [appendLoopF, hb, hcur]
+      rw [hun, appendLoopF_root_some]
+      simp only
+      have he' : h.size ≤ e' := (B.fresh e' B.chain.tail_mem).1
+      have hagree : ∀ id, Val.ref id ∈ as → id < h.size ∧ ∀ i ∈ chain h (fuelOf h) id, h1[i]? = h[i]? := by
+        intro id hid
+        have hlt := hargs' id hid
+        exact ⟨hlt, fun i hi => B.frame i ((hwf.chain_spec hlt).2 i hi).2⟩
+      have hargs1 : ∀ id, Val.ref id ∈ as → id < h1.size ∧ e' ∉ chain h1 (fuelOf h1) id := by
+        intro id hid
+        obtain ⟨hlt, hag⟩ := hagree id hid
+        have hch := (arg_frame h _ hwf B.wf (by omega) id hlt hag).1
+        refine ⟨by omega, ?_⟩
+        rw [hch]
+        intro hx
+        have := ((hwf.chain_spec hlt).2 e' hx).2
+        omega
+      have hsize1 := argNode_sizeT h T f c a h1 h.size w hb
+      have hT1 : (T ++ (argToks h T f c a).1.toArray).size = h1.size := by rw [hsize1]; simp [hT]
+      have hTT : ∀ i, i < T.size → tokOf (T ++ (argToks h T f c a).1.toArray) i = tokOf T i :=
+        fun i hi => tokOf_append_left T _ i hi
+      rw [loop_someT as h1 h.size e' (List.range' h.size (argToks h T f c a).1.length) (log ++ w)
+        (T ++ (argToks h T f c a).1.toArray) f (argToks h T f c a).2 B.wf B.chain (fun i hi => (B.fresh i hi).2)
+        B.headNonempty hT1 hargs1]
+      have e2 : (List.range' h.size (argToks h T f c a).1.length).map (tokOf (T ++ (argToks h T f c a).1.toArray)) =
+          (argToks h T f c a).1 := by
+        rw [← hT]; exact range_map_tok _ T
+      rw [e2, argsToks_frame h h1 T _ f hwf B.wf (by omega) hT hTT as hagree]
+      simp [argsToks]
+
+/-- **the stacks along the result of `Append` onto an existing error**: the accumulator's own stacks, then those of
+    the arguments — copies keep the stacks of their sources, wrapped plain errors carry stacks captured by this call -/
+theorem append_stacks_ref (h : Heap) (T : Toks) (f c : Nat) (id : Nat) (args : List Val) (hwf : WF h)
+    (hT : T.size = h.size) (hid : id < h.size) (hne : isEmpty h id = false)
+    (hargs : ∀ id', Val.ref id' ∈ args → id' < h.size ∧ tailOf h (fuelOf h) id ∉ chain h (fuelOf h) id') :
+    (appendFx h T f c (.ref id) args).2.1 = some id ∧
+    chainToks (appendFx h T f c (.ref id) args).1 (appendFx h T f c (.ref id) args).2.2.2.1 id =
+      chainToks h T id ++ argsToks h T f c args := by
+  have hun : appendFx h T f c (.ref id) args =
+      appendLoopF h (some id) (some (tailOf h (fuelOf h) id)) [] T f c args := by simp [appendFx, hne]
+  rw [hun]
+  obtain ⟨cc, hm⟩ := hwf.chain_spec hid
+  exact ⟨appendLoopF_root_some _ _ _ _ _ _ _ _,
+    loop_someT args h id _ _ [] T f c hwf cc (fun i hi => (hm i hi).2) hne hT hargs⟩
+
+/-- **… and of `Append` onto nothing** (a nil `*Error`, a typed nil or an empty error as accumulator): exactly the stacks of
+    the arguments -/
+theorem append_stacks_none (h : Heap) (T : Toks) (f c : Nat) (acc : Val) (args : List Val) (hwf : WF h)
+    (hT : T.size = h.size) (hacc : acc = .typedNil ∨ acc = .foreignNil ∨ ∃ id, acc = .ref id ∧ isEmpty h id = true)
+    (hargs : ∀ id', Val.ref id' ∈ args → id' < h.size) :
+    match (appendFx h T f c acc args).2.1 with
+    | none => argsToks h T f c args = []
+    | some r => chainToks (appendFx h T f c acc args).1 (appendFx h T f c acc args).2.2.2.1 r = argsToks h T f c args := by
+  have hun : appendFx h T f c acc args = appendLoopF h none none [] T f c args := by
+    rcases hacc with rfl | rfl | ⟨id, rfl, he⟩
+    · simp [appendFx]
+    · simp [appendFx, isNil]
+    · simp [appendFx, he]
+  rw [hun]
+  exact loop_noneT args h [] T f c hwf hT hargs
+
+/-! ### recorded stacks are never changed by `Append` -/
+
+theorem appendFx_toks : ∀ (args : List Val) (acc : Val) (h : Heap) (T : Toks) (f c : Nat),
+    T.size ≤ (appendFx h T f c acc args).2.2.2.1.size ∧
+    ∀ i, i < T.size → tokOf (appendFx h T f c acc args).2.2.2.1 i = tokOf T i := by
+  have wrapper : ∀ (args : List Val) (h : Heap) (T : Toks) (f c : Nat) (v : Val),
+      T.size ≤ (appendLoopF (h.push (wrapperNode v)) (some h.size) (some h.size) [] (T.push (some { creator := f, site := c }))
+        f (c + 1) args).2.2.2.1.size ∧
+      ∀ i, i < T.size → tokOf (appendLoopF (h.push (wrapperNode v)) (some h.size) (some h.size) []
+        (T.push (some { creator := f, site := c })) f (c + 1) args).2.2.2.1 i = tokOf T i := by
+    intro args h T f c v
+    obtain ⟨g1, g2⟩ := appendLoopF_toks args (h.push (wrapperNode v)) (some h.size) (some h.size) []
+      (T.push (some { creator := f, site := c })) f (c + 1)
+    simp only [Array.size_push] at g1 g2
+    exact ⟨by omega, fun i hi => by rw [g2 i (by omega), tokOf_push_left T _ i hi]⟩
+  intro args
+  induction args with
+  | nil =>
+    intro acc h T f c
+    cases acc with
+    | nilIface =>
+      have hun : appendFx h T f c .nilIface [] = (h, none, [], T, c) := rfl
+      rw [hun]; exact ⟨Nat.le_refl _, fun _ _ => rfl⟩
+    | typedNil => simp only [appendFx]; exact appendLoopF_toks _ _ _ _ _ _ _ _
+    | foreignNil => simp only [appendFx, isNil]; exact appendLoopF_toks _ _ _ _ _ _ _ _
+    | ref id => simp only [appendFx]; split <;> exact appendLoopF_toks _ _ _ _ _ _ _ _
+    | plain u m => simp only [appendFx, isNil]; exact wrapper _ _ _ _ _ _
+    | fwrap u m inner => simp only [appendFx, isNil]; exact wrapper _ _ _ _ _ _
+  | cons a as ih =>
+    intro acc h T f c
+    cases acc with
+    | nilIface => simp only [appendFx]; exact ih a h T f c
+    | typedNil => simp only [appendFx]; exact appendLoopF_toks _ _ _ _ _ _ _ _
+    | foreignNil => simp only [appendFx, isNil]; exact appendLoopF_toks _ _ _ _ _ _ _ _
+    | ref id => simp only [appendFx]; split <;> exact appendLoopF_toks _ _ _ _ _ _ _ _
+    | plain u m => simp only [appendFx, isNil]; exact wrapper _ _ _ _ _ _
+    | fwrap u m inner => simp only [appendFx, isNil]; exact wrapper _ _ _ _ _ _
+
+/-! ### the message of an aggregate in terms of its items -/
+
+theorem items_eq_map (h : Heap) (hwf : WF h) (id : Nat) (hid : id < h.size) (hne : isEmpty h id = false) :
+    items h id = (chain h (fuelOf h) id).map (fun i => itemOf (getNode h i)) ∧
+    ∀ i ∈ chain h (fuelOf h) id, msgOf h i = (itemOf (getNode h i)).msg := by
+  obtain ⟨c, hm⟩ := hwf.chain_spec hid
+  refine ⟨?_, ?_⟩
+  · unfold items itemsAt
+    rw [← List.filterMap_eq_map]
+    apply filterMap_congr'
+    intro i hi
+    have hlt := (hm i hi).2
+    have hne_i : isEmpty h i = false := by
+      rcases c.mem_cases i hi with rfl | ⟨p, hp⟩
+      · exact hne
+      · exact (hwf p i hp).2.2
+    rw [get_of_lt h i hlt]
+    simp only [Option.bind_some, Function.comp]
+    exact visible_of_nonempty _ (isEmpty_false_node h i hlt hne_i)
+  · intro i hi
+    unfold msgOf
+    rw [get_of_lt h i (hm i hi).2]
+    rfl
+
+/-- `Message()`: the message itself for a single error, otherwise the header with the count and one `- ` line per
+    contained error -/
+theorem message_eq_items (h : Heap) (hwf : WF h) (id : Nat) (hid : id < h.size) (hne : isEmpty h id = false) :
+    message h id =
+      match items h id with
+      | [it] => it.msg
+      | its => "Multiple (" ++ toString its.length ++ ") errors occurred:" ++
+          String.join (its.map (fun it => "\n- " ++ it.msg)) := by
+  obtain ⟨hmap, hmsg⟩ := items_eq_map h hwf id hid hne
+  obtain ⟨l, e, c, _, _⟩ := hwf.exists_chain (h.size - id) id (Nat.le_refl _) hid
+  have hl := (c.bounds hwf hid).2.2.1
+  rw [← hl] at hmap hmsg
+  have hjoin : (l.map (fun i => "\n- " ++ msgOf h i)) = (items h id).map (fun it => "\n- " ++ it.msg) := by
+    rw [hmap, List.map_map]
+    apply List.map_congr_left
+    intro i hi
+    simp only [Function.comp]
+    rw [hmsg i hi]
+  cases c with
+  | last _ hn =>
+    simp only [message, hn]
+    rw [hmap]
+    simp only [List.map_cons, List.map_nil]
+    exact hmsg id (by simp)
+  | step _ j l' _ hn c' =>
+    obtain ⟨j', l'', rfl⟩ : ∃ j' l'', l' = j' :: l'' := by
+      cases l' with
+      | nil => exact absurd rfl c'.ne_nil
+      | cons a b => exact ⟨a, b, rfl⟩
+    simp only [message, hn]
+    rw [count_eq_items, ← hl, hjoin]
+    rw [hmap]
+    simp only [List.map_cons, List.length_cons, List.length_map]
+
+theorem tokOf_push_self (T : Toks) (x : Option Tok) (n : Nat) (hn : T.size = n) : tokOf (T.push x) n = x := by
+  subst hn; unfold tokOf; simp
+
 end Errs
